@@ -7,27 +7,54 @@ from .zone import DBM, INF
 from .paths import BRANCH_TERMS
 
 
+def _cjoin(a, b):
+    """join of two congruence maps {var: (m, r)} (value = r mod m; m == 0: exactly r).  Missing = unknown."""
+    from math import gcd
+    out = {}
+    for v in set(a) & set(b):
+        (m1, r1), (m2, r2) = a[v], b[v]
+        m = gcd(gcd(m1, m2), abs(r1 - r2))
+        if m == 1:
+            continue
+        out[v] = (m, r1 % m if m else r1)
+    return out
+
+
 class State:
     """Zone plus a set of general linear facts  L <= 0  (each a frozenset of (var, coef) items; key 1 = constant) gathered
-    from branch conditions with const locals inlined.  The facts extend the zone to the few three-variable relations the
-    kernels need (i + il - iu + 2 <= 0); they are dropped as soon as one of their variables may change."""
-    __slots__ = ('d', 'facts')
+    from branch conditions with const locals inlined, plus congruences var = r (mod m) for the strided loops of the vectorised
+    kernel.  The facts extend the zone to the few three-variable relations the kernels need (i + il - iu + 2 <= 0); they are
+    dropped as soon as one of their variables may change."""
+    __slots__ = ('d', 'facts', 'cong')
 
-    def __init__(self, d, facts=frozenset()):
+    def __init__(self, d, facts=frozenset(), cong=None):
         self.d = d
         self.facts = facts
+        self.cong = cong or {}
 
     def copy(self):
-        return State(self.d.copy(), self.facts)
+        return State(self.d.copy(), self.facts, dict(self.cong))
 
     def join(self, o):
-        return State(self.d.join(o.d), self.facts & o.facts)
+        return State(self.d.join(o.d), self.facts & o.facts, _cjoin(self.cong, o.cong))
 
     def widen(self, o):
-        return State(self.d.widen(o.d), self.facts & o.facts)
+        return State(self.d.widen(o.d), self.facts & o.facts, _cjoin(self.cong, o.cong))
 
     def leq(self, o):
-        return self.d.leq(o.d) and o.facts <= self.facts
+        if not (self.d.leq(o.d) and o.facts <= self.facts):
+            return False
+        for v, (m2, r2) in o.cong.items():
+            if v not in self.cong:
+                return False
+            m1, r1 = self.cong[v]
+            # self's value set (r1 mod m1) must be inside o's (r2 mod m2)
+            if m2 == 0:
+                if not (m1 == 0 and r1 == r2):
+                    return False
+            elif not ((m1 % m2 == 0 if m1 else True) and (r1 - r2) % m2 == 0):
+                return False
+        return True
 
     def is_bot(self):
         return self.d.is_bot()
@@ -46,6 +73,114 @@ class State:
     @property
     def bot(self):
         return self.d.bot
+
+
+def _round_down_pattern(fn, node):
+    """(x variable key, c) if node is  x - (x & (c - 1))  with c a power-of-two constant (round x down to a multiple of c)"""
+    n = fn.strip(node)
+    if n is None or n['k'] != 'BinaryOperator' or n.get('op') != '-':
+        return None
+    l, r = fn.strip(fn.nodes[n['c'][0]]), fn.strip(fn.nodes[n['c'][1]])
+    if r is None or r['k'] != 'BinaryOperator' or r.get('op') != '&':
+        return None
+    a, b = fn.strip(fn.nodes[r['c'][0]]), fn.strip(fn.nodes[r['c'][1]])
+    x = zone.var_of(fn, l)
+    if x is None or zone.var_of(fn, a) != x:
+        return None
+    mk = zone.linear(fn, b)
+    if mk is None or mk[0] != 'Z':
+        return None
+    c = mk[1] + 1
+    if c < 1 or (c & (c - 1)) != 0:
+        return None
+    return x, c
+
+
+def _cong_step(fn, st, n):
+    """congruence transfer for an element that writes an integer (or modelled pointer-row) variable"""
+    w = zone.written_var(fn, n)
+    tgt, kind, rhs = None, None, None
+    if w is not None:
+        tgt, kind, rhs = w
+    elif n['k'] == 'DeclStmt' and len(n.get('decls', [])) == 1 and 'var' in n['decls'][0]:
+        dd = n['decls'][0]
+        lv = fn.locals[dd['var']]
+        if lv['type'] in zone.INT_TYPES and 'init' in dd:
+            tgt, kind, rhs = ('v', dd['var']), '=', fn.nodes[dd['init']]
+        elif lv['type'] in zone.INT_TYPES:
+            st.cong.pop(('v', dd['var']), None)
+            return
+    if tgt is None:
+        # calls may kill variables: drop what the zone's kill set names
+        for v in zone.killed_vars(fn, n):
+            st.cong.pop(v, None)
+        return
+    old = st.cong.get(tgt)
+    st.cong.pop(tgt, None)
+    if kind in ('++', '--'):
+        if old is not None:
+            m, r = old
+            r2 = r + (1 if kind == '++' else -1)
+            st.cong[tgt] = (m, r2 % m if m else r2)
+        return
+    if kind in ('+=', '-='):
+        lin = zone.linear(fn, rhs)
+        if old is not None and lin is not None and lin[0] == 'Z':
+            m, r = old
+            r2 = r + (lin[1] if kind == '+=' else -lin[1])
+            st.cong[tgt] = (m, r2 % m if m else r2)
+        return
+    if kind == '=':
+        rd = _round_down_pattern(fn, rhs)
+        if rd is not None:
+            x, c = rd
+            if c > 1:
+                st.cong[tgt] = (c, 0)
+            elif x in st.cong:
+                st.cong[tgt] = st.cong[x]
+            st.d.add(tgt, x, 0)            # rounded value <= x
+            st.d.add(x, tgt, c - 1)        # x - rounded value <= c - 1
+            return
+        lin = zone.linear(fn, rhs)
+        if lin is not None:
+            if lin[0] == 'Z':
+                st.cong[tgt] = (0, lin[1])
+            elif lin[0] in st.cong and lin[0] != tgt:
+                m, r = st.cong[lin[0]]
+                st.cong[tgt] = (m, (r + lin[1]) % m if m else r + lin[1])
+
+
+def _cong_refine(fn, st, cond):
+    """after a comparison between two variables with known congruences: round the zone's bound on their difference down to the
+    nearest value the congruences allow (i < y, both multiples of 4  =>  i <= y - 4)"""
+    from math import gcd
+    if not st.cong:
+        return
+    vs = set()
+    for y in fn.walk(cond['id']):
+        if y['k'] in ('DeclRefExpr', 'MemberExpr'):
+            v = zone.var_of(fn, y)
+            if v is not None and v in st.cong:
+                vs.add(v)
+    vs = sorted(vs, key=str)
+    st.d.close()
+    if st.d.bot:
+        return
+    for a in vs:
+        for b in vs:
+            if a == b:
+                continue
+            (ma, ra), (mb, rb) = st.cong[a], st.cong[b]
+            m = gcd(ma, mb)
+            if m <= 1:
+                continue
+            bound = st.d.get(a, b)
+            if bound == zone.INF:
+                continue
+            want = (ra - rb) % m
+            t = bound - ((bound - want) % m)
+            if t < bound:
+                st.d.add(a, b, t)
 
 
 def _cond_facts(fn, cond, truth, out):
@@ -153,7 +288,9 @@ def analyse(fn, entry, post=None):
             idxs = [i for i, s in enumerate(ss) if s == b]
             if len(idxs) == 1:
                 truth = idxs[0] == 0
+                _cong_refine(fn, st, fn.nodes[cond])
                 zone.assume(fn, st.d, fn.nodes[cond], truth)
+                _cong_refine(fn, st, fn.nodes[cond])
                 new = set()
                 _cond_facts(fn, fn.nodes[cond], truth, new)
                 if new:
@@ -201,6 +338,7 @@ def analyse(fn, entry, post=None):
             if isinstance(e, int):
                 kill_facts(st, fn.nodes[e])
                 zone.step(fn, st.d, fn.nodes[e])
+                _cong_step(fn, st, fn.nodes[e])
                 if post is not None:
                     post(fn, st, fn.nodes[e])
             elif isinstance(e, dict) and 'decl' in e:
